@@ -35,6 +35,12 @@ CHECKS = {
   "text": "Decides on every CFG path of every analysed @memoize wrapper that a cache miss is followed by an insert under the lookup key before any normal return, that nothing else runs before the lookup, that the hit path only clones, and that nothing else touches or evicts the cache field. Sound for all inputs of the analysed wrappers (27 test grammars, bootstrap parser, macro test; corpus in thorough); the wrapper template is one per rule kind x directive set.",
   "note": TRUST + "I-level verdict: covers the analysed generated instances; generalises to all grammars only as far as the wrapper template is compositional.",
  },
+ "C08": {
+  "category": "other",
+  "technique": "generator-level dataflow (flag read/write sets, settings threading), quote!-template reconstruction from MIR, finite-domain truth table; instance-level continuation rule",
+  "text": "For all grammars (rules on the generator's own code): the per-rule flag is Default=true or `settings.skip_whitespace && !flags.no_skip_ws` (4-row truth table) and is read only by the rule generator and the skip helper; all 88 settings hand-overs pass exactly the received settings (rule generator: the derived per-rule value), so nested constructs and included bodies inherit the enclosing/including rule's mode; atom parser names reach the output only through the skip helper (enumerated exceptions: @char alternatives, rule fn definitions); the helper's two templates are reconstructed token-by-token; a skipping Whitespace rule is rejected. Runtime: the builtin class is exactly {9,10,12,13,32}. Instances (259 rules): each atom is exactly the continuation of one skip from the skipper's state, or the rule contains no skip at all; a grammar-defined Whitespace shadows the builtin.",
+  "note": TRUST + "quote!/proc_macro2 push_* semantics trusted. Which rules are @no_skip_ws is taken from the generated code's shape in quick tier and compared with the grammar text in thorough.",
+ },
  "C09": {
   "category": "other",
   "technique": "dataflow identity rules over MIR (closure-capture resolution) for range/slice measurement + runtime identities",
@@ -63,4 +69,4 @@ CHECKS = {
 
 _PENDING = "check not built yet in this round (design in DESIGN.md §3); no verdict is claimed until it is"
 NOT_APPLICABLE = {pid: _PENDING for pid in
-  ["C01","C02","C03","C08","C11","C12","C13","C15","C16","C17","C18"]}
+  ["C01","C02","C03","C11","C12","C13","C15","C16","C17","C18"]}
